@@ -139,6 +139,26 @@ def setup_config(
             store_p = os.path.join(load_dir, str(act), "traj.txt")
             if not os.path.isfile(store_p):
                 return None
+
+        # drop data rows written after the restart file (crash in between):
+        # rows of paths that are still active, and a torn last line. The
+        # restarted simulation will write them again.
+        data_file = config.get("output", {}).get("data_file")
+        if data_file and os.path.isfile(data_file):
+            active = {str(act) for act in curr["active"]}
+            with open(data_file, encoding="utf-8") as read:
+                rows = read.readlines()
+            keep = []
+            for row in rows:
+                words = row.split()
+                complete = row.endswith("\n") and len(words) > 0
+                if row.startswith("#") or (
+                    complete and words[0] not in active
+                ):
+                    keep.append(row)
+            if keep != rows:
+                with open(data_file, "w", encoding="utf-8") as write:
+                    write.writelines(keep)
     else:
         # no 'current' in toml, start from step 0.
         size = len(config["simulation"]["interfaces"])
